@@ -47,6 +47,233 @@ D = C + "detail::"
 STATUS = C + "SimTrackView::status"
 
 
+
+def inplace_agreement(db, cx, rule="C02.5-inplace-agreement"):
+    """LocateAlive's slot decision agrees with what ProcessSecondaries carries out (shared with C01:
+    a surviving secondary that is neither initialised in place nor queued vanishes with its energy)."""
+    # 5 ------------------------------------------------- in-place predicate agreement
+    la = None
+    for n in db.find(r"^celeritas::detail::LocateAliveExecutor::operator\(\)::\(lambda"):
+        for f in db.get(n):
+            la = f
+    cx.require(la is not None, "LocateAliveExecutor's slot-decision lambda not found")
+    ps = db.get(D + "ProcessSecondariesExecutor::operator()")
+    ps = [f for f in ps if f.has_call(C + "SimTrackView::operator=")]
+    cx.require(ps, "ProcessSecondariesExecutor body not found")
+    ps = ps[0]
+
+    def atom(c, env):
+        """truth of the core condition under env{A,B,S,I} or None"""
+        if c.get("renum", "").endswith("TrackStatus::alive") and C + "SimTrackView::status" in c.get("lcalls", []):
+            return env["A"] if c["op"] == "==" else (not env["A"]) if c["op"] == "!=" else None
+        if c.get("renum", "").endswith("TrackOrder::init_charge"):
+            return env["B"] if c["op"] == "==" else (not env["B"]) if c["op"] == "!=" else None
+        if c.get("op") == ">" and c.get("lrefs") == [svar] and c.get("rlit") == "0":
+            return env["S"]
+        if ivar is not None and (c.get("core") == ivar or c.get("var") == ivar):
+            return not env["I"]
+        if c.get("op") in ("&&", "||"):
+            return "skip"
+        return None
+
+    def decide(f, start, targets, env):
+        def truth(c):
+            t = atom(c, env)
+            if t == "skip":
+                return None
+            return t
+        return follow(f, start, truth, targets)
+
+    # LocateAlive: block that decrements num_secondaries = "keep slot for first secondary"
+    la_decs = [(b, ev.get("var")) for (b, i, ev) in la.events("def") if ev.get("op") == "--"]
+    cx.require(len(la_decs) == 1, "LocateAlive lambda: expected exactly one decrement of the "
+               "secondary counter")
+    la_dec = [la_decs[0][0]]
+    svar = la_decs[0][1]          # the per-track secondary counter (whatever it is called)
+    # LocateAlive: keep(A, B, S) by walking its CFG under the truth assignment
+    def la_keep(A, B, S):
+        env = {"A": A, "B": B, "S": S, "I": True}
+        return decide(la, la.entry, set(la_dec), env) is not None
+    ivar = None
+    rows = []
+    agree = True
+    detail = ""
+    try:
+        for A, B in itertools.product([False, True], repeat=2):
+            if la_keep(A, B, False):
+                agree = False
+                rows.append({"alive": A, "init_charge": B, "no_secondary_but_keeps_slot": True})
+    except UnknownAtom as e:
+        raise AnalysisBroken("LocateAlive's slot decision uses an atom outside {alive, init_charge, "
+                             "has-secondary}: %s" % e)
+    # ProcessSecondaries: A7 (lib/boolinterp.py) - the body is interpreted over its boolean locals,
+    # the parent status, the track order and an abstract sequence of surviving / cleared
+    # secondaries; effects: in-place initialisation, queued initializer, slot freed
+    import boolinterp
+    psa = [f for f in db.get(D + "ProcessSecondariesExecutor::operator()") if "ast" in f.r
+           and f.has_call(C + "SimTrackView::operator=")]
+    cx.require(psa, "ProcessSecondariesExecutor body (AST) not found")
+    ast = psa[0].r["ast"]
+
+    def enum_of(n):
+        n = astutil.strip(n)
+        return n.get("name") if n is not None and n["k"] == "DeclRefExpr" and "cval" in n else None
+
+    def atom2(n, st):
+        if n["k"] == "BinaryOperator" and n["op"] in ("==", "!="):
+            l, r = astutil.strip(n["c"][0]), astutil.strip(n["c"][1])
+            for x, y in ((l, r), (r, l)):
+                en = enum_of(y)
+                if en is None:
+                    continue
+                if x["k"] == "CXXMemberCallExpr" and x.get("callee") == C + "SimTrackView::status" \
+                        and len(x["c"]) == 1:
+                    v = st.data["status"] == en
+                    return v if n["op"] == "==" else not v
+                if x["k"] == "MemberExpr" and x.get("name") == "track_order" and en == "init_charge":
+                    v = st.data["init_charge"]
+                    return v if n["op"] == "==" else not v
+        if n["k"] == "CXXMemberCallExpr" and n.get("callee", "").startswith(C + "Secondary::operator") \
+                and "loopvar" in st.data:
+            item = st.data["loopvar"][1]
+            if isinstance(item, tuple):          # index loop: the object is a reference bound to seq[i]
+                recv = astutil.strip(n["c"][0]["c"][0]) if n["c"] and n["c"][0]["c"] else None
+                nm = recv.get("name") if recv is not None and recv["k"] == "DeclRefExpr" else None
+                if nm in st.data.get("alias", {}):
+                    return st.data["alias"][nm]
+                if recv is not None and recv["k"] == "CXXOperatorCallExpr" and recv.get("oop") == "[]":
+                    return elem_of(recv, st)
+                return None
+            return item
+        if n["k"] == "BinaryOperator" and n["op"] in ("==", "!=", ">", "<") and "loopvar" in st.data \
+                and isinstance(st.data["loopvar"][1], tuple):
+            l, r = astutil.strip(n["c"][0]), astutil.strip(n["c"][1])
+            ci = astutil.const_int(r)
+            if l["k"] == "DeclRefExpr" and l["name"] == st.data["loopvar"][0] and ci is not None:
+                i = st.data["loopvar"][1][1]
+                return {"==": i == ci, "!=": i != ci, ">": i > ci, "<": i < ci}[n["op"]]
+        return None
+
+    def elem_of(n, st):
+        """value of `seqvar[loopindex]`, else None"""
+        base, idx = astutil.strip(n["c"][1]), astutil.strip(n["c"][2])
+        if base["k"] == "DeclRefExpr" and base["name"] in st.data.get("seqvars", ()) \
+                and idx["k"] == "DeclRefExpr" and "loopvar" in st.data and idx["name"] == st.data["loopvar"][0] \
+                and isinstance(st.data["loopvar"][1], tuple):
+            return st.data["loopvar"][1][2]
+        return None
+
+    def effect(n, st, decl=None):
+        for x in astutil.walk(n):
+            if x["k"] == "LambdaExpr":
+                return
+        if decl is not None:
+            m = astutil.strip(n, also=("CXXConstructExpr",))
+            if m is not None and m["k"] == "CXXMemberCallExpr" and m.get("callee", "").endswith("::secondaries"):
+                st.data.setdefault("seqvars", set()).add(decl["name"])      # a copy of the span
+                return
+            if m is not None and m["k"] == "CXXOperatorCallExpr" and m.get("oop") == "[]":
+                v = elem_of(m, st)
+                if v is not None:
+                    st.data.setdefault("alias", {})[decl["name"]] = v        # reference to seq[i]
+                    return
+        if n["k"] == "CXXOperatorCallExpr" and n.get("oop") == "=":
+            cal = n.get("callee", "")
+            if cal == C + "SimTrackView::operator=":
+                st.effects.append("inplace")
+                st.data["status"] = "initializing"
+            elif cal == C + "TrackInitializer::operator=" and any(
+                    y["k"] == "MemberExpr" and y.get("name") == "initializers" for y in astutil.walk(n["c"][1])):
+                st.effects.append("queued")
+        if n["k"] == "CXXMemberCallExpr" and n.get("callee") == C + "SimTrackView::status" and len(n["c"]) == 2:
+            en = enum_of(n["c"][1])
+            st.effects.append("status:%s" % en)
+            st.data["status"] = en
+
+    def sequence(rng, st):
+        r = astutil.strip(rng)
+        if r["k"] == "CXXMemberCallExpr" and r.get("callee", "").endswith("::secondaries"):
+            return list(st.data["seq"])
+        if r["k"] == "DeclRefExpr" and r["name"] in st.data.get("seqvars", ()):
+            return list(st.data["seq"])
+        if r["k"] == "CallExpr" and r.get("callee") == C + "range" and len(r["c"]) == 2:
+            a = astutil.strip(r["c"][1], also=("CXXConstructExpr", "CXXStaticCastExpr"))
+            if a["k"] == "CXXMemberCallExpr" and a.get("callee", "").endswith("::size") and a["c"] and a["c"][0]["c"]:
+                obj = astutil.strip(a["c"][0]["c"][0])
+                if (obj["k"] == "DeclRefExpr" and obj["name"] in st.data.get("seqvars", ())) or \
+                        (obj["k"] == "CXXMemberCallExpr" and obj.get("callee", "").endswith("::secondaries")):
+                    return [("idx", i, v) for i, v in enumerate(st.data["seq"])]
+        return None
+    nruns = 0
+    try:
+        for P in ("alive", "killed", "errored"):
+            for B in (False, True):
+                for n_ in range(0, 5):
+                    for seq in itertools.product([True, False], repeat=n_):
+                        def init(st, P=P, B=B, seq=seq):
+                            st.data.update(status=P, init_charge=B, seq=seq)
+                        finals = boolinterp.explore(ast, atom2, effect, sequence, init)
+                        nruns += 1
+                        outs = set((st.effects.count("inplace"), st.effects.count("queued"),
+                                    st.effects.count("status:inactive")) for st in finals)
+                        surv = sum(seq)
+                        keep = la_keep(P == "alive", B, surv > 0)
+                        want = (1 if keep else 0, surv - (1 if keep else 0),
+                                1 if (P == "killed" and not keep) else 0)
+                        if outs != {want}:
+                            agree = False
+                            if len(rows) < 6:
+                                rows.append({"parent": P, "init_charge": B,
+                                             "secondaries": ["survives" if x else "cleared" for x in seq],
+                                             "LocateAlive_keeps_slot": keep,
+                                             "expected (in place, queued, freed)": want,
+                                             "ProcessSecondaries": sorted(outs)})
+    except astutil.OutOfVocabulary as e:
+        raise AnalysisBroken("ProcessSecondariesExecutor outside the vocabulary of the boolean "
+                             "interpretation: %s" % e)
+    cx.count("in-place agreement: (parent status, track order, secondary sequence) cases", nruns)
+    if agree:
+        rows.append({"cases": nruns, "all": "in place == LocateAlive keeps the slot; queued == survivors "
+                                           "- in place; slot freed iff parent killed and nothing in place"})
+    cx.sample({"in_place_truth_table": rows})
+    cx.ob(rule, "LocateAlive keeps the slot <=> ProcessSecondaries initialises "
+          "exactly one surviving secondary in place (all secondary sequences up to length 4)", agree,
+          str(rows), short(la.loc),
+          why="a mismatch either loses the first secondary (slot kept, nobody fills it) or puts "
+              "two tracks in one slot / double-counts a secondary")
+
+
+def inactive_scratch(db, cx):
+    """C02.6 (seeded change c02e): the per-step secondaries span of an *inactive* slot is stale
+    scratch (pre-step clears it only in debug builds): LocateAlive and ProcessSecondaries read
+    `PhysicsStepView::secondaries()` only on the not-inactive edge of a status test."""
+    n = 0
+    for nm in (D + "LocateAliveExecutor::operator()", D + "ProcessSecondariesExecutor::operator()"):
+        fs = [f for f in db.get(nm) if f.has_call(C + "PhysicsStepView::secondaries")]
+        cx.require(fs, "anchor %s (reading the secondaries) not found" % nm.split("::")[-2])
+        for f in fs:
+            brs = f.branch_blocks(lambda c, _b: c.get("renum", "").endswith("TrackStatus::inactive")
+                                  and c.get("op") in ("==", "!=")
+                                  and C + "SimTrackView::status" in (c.get("lcalls", []) + c.get("rcalls", [])))
+            for (b, i, e) in f.events("call"):
+                if e["callee"] != C + "PhysicsStepView::secondaries":
+                    continue
+                ok = False
+                for br in brs:
+                    c = f.blocks[br]["cond"]
+                    # the edge on which the status is NOT inactive
+                    edge = f.cond_polarity_edge(br, c.get("op") == "!=")
+                    if f.guarded_by_edge((b, i), br, edge):
+                        ok = True
+                n += 1
+                cx.ob("C02.6-inactive-scratch", "%s reads the secondaries only for a slot that is not inactive"
+                      % nm.split("::")[-2], ok, "%d status test(s) against inactive" % len(brs), short(e["loc"]),
+                      why="an empty slot keeps the span of its last occupant (release builds do not clear "
+                          "it); counting those secondaries marks the empty slot as occupied and queues "
+                          "initializers that nobody writes: counters drift, the event never drains, "
+                          "finished tracks are transported again")
+    cx.floor("readers of the secondaries span in the extend-from-secondaries kernels", n, 2)
+
 def run(db, cx):
     eff = effects.Effects(db)
     cx.floor("step actions found", len(eff.actions()), 8)
@@ -230,149 +457,5 @@ def run(db, cx):
     # 4 ------------------------------------------------------------ status typestate
     shared.status_typestate(db, cx, "C02.4", eff)
 
-    # 5 ------------------------------------------------- in-place predicate agreement
-    la = None
-    for n in db.find(r"^celeritas::detail::LocateAliveExecutor::operator\(\)::\(lambda"):
-        for f in db.get(n):
-            la = f
-    cx.require(la is not None, "LocateAliveExecutor's slot-decision lambda not found")
-    ps = db.get(D + "ProcessSecondariesExecutor::operator()")
-    ps = [f for f in ps if f.has_call(C + "SimTrackView::operator=")]
-    cx.require(ps, "ProcessSecondariesExecutor body not found")
-    ps = ps[0]
-
-    def atom(c, env):
-        """truth of the core condition under env{A,B,S,I} or None"""
-        if c.get("renum", "").endswith("TrackStatus::alive") and C + "SimTrackView::status" in c.get("lcalls", []):
-            return env["A"] if c["op"] == "==" else (not env["A"]) if c["op"] == "!=" else None
-        if c.get("renum", "").endswith("TrackOrder::init_charge"):
-            return env["B"] if c["op"] == "==" else (not env["B"]) if c["op"] == "!=" else None
-        if c.get("op") == ">" and c.get("lrefs") == [svar] and c.get("rlit") == "0":
-            return env["S"]
-        if ivar is not None and (c.get("core") == ivar or c.get("var") == ivar):
-            return not env["I"]
-        if c.get("op") in ("&&", "||"):
-            return "skip"
-        return None
-
-    def decide(f, start, targets, env):
-        def truth(c):
-            t = atom(c, env)
-            if t == "skip":
-                return None
-            return t
-        return follow(f, start, truth, targets)
-
-    # LocateAlive: block that decrements num_secondaries = "keep slot for first secondary"
-    la_decs = [(b, ev.get("var")) for (b, i, ev) in la.events("def") if ev.get("op") == "--"]
-    cx.require(len(la_decs) == 1, "LocateAlive lambda: expected exactly one decrement of the "
-               "secondary counter")
-    la_dec = [la_decs[0][0]]
-    svar = la_decs[0][1]          # the per-track secondary counter (whatever it is called)
-    # LocateAlive: keep(A, B, S) by walking its CFG under the truth assignment
-    def la_keep(A, B, S):
-        env = {"A": A, "B": B, "S": S, "I": True}
-        return decide(la, la.entry, set(la_dec), env) is not None
-    ivar = None
-    rows = []
-    agree = True
-    detail = ""
-    try:
-        for A, B in itertools.product([False, True], repeat=2):
-            if la_keep(A, B, False):
-                agree = False
-                rows.append({"alive": A, "init_charge": B, "no_secondary_but_keeps_slot": True})
-    except UnknownAtom as e:
-        raise AnalysisBroken("LocateAlive's slot decision uses an atom outside {alive, init_charge, "
-                             "has-secondary}: %s" % e)
-    # ProcessSecondaries: A7 (lib/boolinterp.py) - the body is interpreted over its boolean locals,
-    # the parent status, the track order and an abstract sequence of surviving / cleared
-    # secondaries; effects: in-place initialisation, queued initializer, slot freed
-    import boolinterp
-    psa = [f for f in db.get(D + "ProcessSecondariesExecutor::operator()") if "ast" in f.r
-           and f.has_call(C + "SimTrackView::operator=")]
-    cx.require(psa, "ProcessSecondariesExecutor body (AST) not found")
-    ast = psa[0].r["ast"]
-
-    def enum_of(n):
-        n = astutil.strip(n)
-        return n.get("name") if n is not None and n["k"] == "DeclRefExpr" and "cval" in n else None
-
-    def atom2(n, st):
-        if n["k"] == "BinaryOperator" and n["op"] in ("==", "!="):
-            l, r = astutil.strip(n["c"][0]), astutil.strip(n["c"][1])
-            for x, y in ((l, r), (r, l)):
-                en = enum_of(y)
-                if en is None:
-                    continue
-                if x["k"] == "CXXMemberCallExpr" and x.get("callee") == C + "SimTrackView::status" \
-                        and len(x["c"]) == 1:
-                    v = st.data["status"] == en
-                    return v if n["op"] == "==" else not v
-                if x["k"] == "MemberExpr" and x.get("name") == "track_order" and en == "init_charge":
-                    v = st.data["init_charge"]
-                    return v if n["op"] == "==" else not v
-        if n["k"] == "CXXMemberCallExpr" and n.get("callee", "").startswith(C + "Secondary::operator") \
-                and "loopvar" in st.data:
-            return st.data["loopvar"][1]
-        return None
-
-    def effect(n, st, decl=None):
-        for x in astutil.walk(n):
-            if x["k"] == "LambdaExpr":
-                return
-        if n["k"] == "CXXOperatorCallExpr" and n.get("oop") == "=":
-            cal = n.get("callee", "")
-            if cal == C + "SimTrackView::operator=":
-                st.effects.append("inplace")
-                st.data["status"] = "initializing"
-            elif cal == C + "TrackInitializer::operator=" and any(
-                    y["k"] == "MemberExpr" and y.get("name") == "initializers" for y in astutil.walk(n["c"][1])):
-                st.effects.append("queued")
-        if n["k"] == "CXXMemberCallExpr" and n.get("callee") == C + "SimTrackView::status" and len(n["c"]) == 2:
-            en = enum_of(n["c"][1])
-            st.effects.append("status:%s" % en)
-            st.data["status"] = en
-
-    def sequence(rng, st):
-        r = astutil.strip(rng)
-        if r["k"] == "CXXMemberCallExpr" and r.get("callee", "").endswith("::secondaries"):
-            return list(st.data["seq"])
-        return None
-    nruns = 0
-    try:
-        for P in ("alive", "killed", "errored"):
-            for B in (False, True):
-                for n_ in range(0, 5):
-                    for seq in itertools.product([True, False], repeat=n_):
-                        def init(st, P=P, B=B, seq=seq):
-                            st.data.update(status=P, init_charge=B, seq=seq)
-                        finals = boolinterp.explore(ast, atom2, effect, sequence, init)
-                        nruns += 1
-                        outs = set((st.effects.count("inplace"), st.effects.count("queued"),
-                                    st.effects.count("status:inactive")) for st in finals)
-                        surv = sum(seq)
-                        keep = la_keep(P == "alive", B, surv > 0)
-                        want = (1 if keep else 0, surv - (1 if keep else 0),
-                                1 if (P == "killed" and not keep) else 0)
-                        if outs != {want}:
-                            agree = False
-                            if len(rows) < 6:
-                                rows.append({"parent": P, "init_charge": B,
-                                             "secondaries": ["survives" if x else "cleared" for x in seq],
-                                             "LocateAlive_keeps_slot": keep,
-                                             "expected (in place, queued, freed)": want,
-                                             "ProcessSecondaries": sorted(outs)})
-    except astutil.OutOfVocabulary as e:
-        raise AnalysisBroken("ProcessSecondariesExecutor outside the vocabulary of the boolean "
-                             "interpretation: %s" % e)
-    cx.count("in-place agreement: (parent status, track order, secondary sequence) cases", nruns)
-    if agree:
-        rows.append({"cases": nruns, "all": "in place == LocateAlive keeps the slot; queued == survivors "
-                                           "- in place; slot freed iff parent killed and nothing in place"})
-    cx.sample({"in_place_truth_table": rows})
-    cx.ob("C02.5-inplace-agreement", "LocateAlive keeps the slot <=> ProcessSecondaries initialises "
-          "exactly one surviving secondary in place (all secondary sequences up to length 4)", agree,
-          str(rows), short(la.loc),
-          why="a mismatch either loses the first secondary (slot kept, nobody fills it) or puts "
-              "two tracks in one slot / double-counts a secondary")
+    inplace_agreement(db, cx)
+    inactive_scratch(db, cx)
